@@ -546,3 +546,101 @@ func H_C18_file() {
 		verif.Assert(strings.Contains(uerr.Error(), path), "C18/file: the error about a setting mentions the file/fault="+itoa(fault))
 	}
 }
+
+// H_C18_kinds: one scalar of every JSON kind into one target of every primitive kind: the three
+// front-ends accept or reject alike and deliver the same value (YAML hands integers over as int,
+// JSON and HJSON as float64 - go-ucfg has to make that invisible).
+func H_C18_kinds() {
+	type scalar struct {
+		txt string
+		y   interface{}
+		j   interface{}
+	}
+	vals := []scalar{
+		{"0", 0, 0.0}, {"1", 1, 1.0}, {"2", 2, 2.0}, {"-1", -1, -1.0}, {"255", 255, 255.0}, {"256", 256, 256.0},
+		{"1000000", 1000000, 1000000.0}, {"123456789012", 123456789012, 123456789012.0},
+		{"1.5", 1.5, 1.5}, {"true", true, true}, {"\"1\"", "1", "1"}, {"\"true\"", "true", "true"}, {"\"x\"", "x", "x"}, {"null", nil, nil},
+	}
+	e := vals[verif.Choice("value", len(vals))]
+	text := verif.TextBytes(`{"v": ` + e.txt + `, "w": "pre-${v}"}`)
+	verif.DecoderResult("yaml", map[interface{}]interface{}{"v": e.y, "w": "pre-${v}"})
+	verif.DecoderResult("json", map[string]interface{}{"v": e.j, "w": "pre-${v}"})
+	verif.DecoderResult("hjson", map[string]interface{}{"v": e.j, "w": "pre-${v}"})
+	opts := []ucfg.Option{ucfg.VarExp}
+	cy, ey := yaml.NewConfig(text, opts...)
+	cj, ej := json.NewConfig(text, opts...)
+	ch, eh := hjson.NewConfig(text, opts...)
+	verif.Assert(ey == nil && ej == nil && eh == nil, "C18/kinds: documents load")
+	if ey != nil || ej != nil || eh != nil {
+		return
+	}
+	target := verif.Choice("target", 8)
+	unpack := func(c *ucfg.Config) (string, error) {
+		switch target {
+		case 0:
+			var t struct {
+				V bool `config:"v"`
+			}
+			err := c.Unpack(&t, opts...)
+			return strconv.FormatBool(t.V), err
+		case 1:
+			var t struct {
+				V int64 `config:"v"`
+			}
+			err := c.Unpack(&t, opts...)
+			return strconv.FormatInt(t.V, 10), err
+		case 2:
+			var t struct {
+				V uint8 `config:"v"`
+			}
+			err := c.Unpack(&t, opts...)
+			return strconv.FormatUint(uint64(t.V), 10), err
+		case 3:
+			var t struct {
+				V float64 `config:"v"`
+			}
+			err := c.Unpack(&t, opts...)
+			return strconv.FormatFloat(t.V, 'g', -1, 64), err
+		case 4:
+			var t struct {
+				V string `config:"v"`
+			}
+			err := c.Unpack(&t, opts...)
+			return t.V, err
+		case 5:
+			var t struct {
+				V []bool `config:"v"`
+			}
+			err := c.Unpack(&t, opts...)
+			if len(t.V) == 1 {
+				return strconv.FormatBool(t.V[0]), err
+			}
+			return itoa(len(t.V)), err
+		case 6:
+			// the number spliced into a string
+			var t struct {
+				W string `config:"w"`
+			}
+			err := c.Unpack(&t, opts...)
+			return t.W, err
+		default:
+			var t struct {
+				V *int16 `config:"v"`
+			}
+			err := c.Unpack(&t, opts...)
+			if t.V != nil {
+				return strconv.FormatInt(int64(*t.V), 10), err
+			}
+			return "nil", err
+		}
+	}
+	sy, uy := unpack(cy)
+	sj, uj := unpack(cj)
+	sh, uh := unpack(ch)
+	verif.Reach("kinds compared")
+	lbl := "/target=" + itoa(target)
+	verif.Assert((uy == nil) == (uj == nil) && (uj == nil) == (uh == nil), "C18/kinds: typed unpack succeeds or fails alike"+lbl)
+	if uy == nil && uj == nil && uh == nil {
+		verif.Assert(sy == sj && sj == sh, "C18/kinds: the three front-ends deliver the same value"+lbl)
+	}
+}
